@@ -171,6 +171,29 @@ def _compile_one(args):
     return 0, o
 
 
+def _touch(p):
+    try:
+        os.utime(p, None)
+    except OSError:
+        pass
+
+
+def gc(max_age_h=12.0):
+    """Nothing is deleted while building (concurrent checks on different trees share the cache);
+    files that no build has used for max_age_h hours are pruned here, on request."""
+    cutoff = time.time() - max_age_h * 3600
+    n = 0
+    for pat in ("obj/*/*.o", "obj/*.o", "lib/*.a", "bin/*"):
+        for f in glob.glob(os.path.join(BUILD, pat)):
+            try:
+                if os.path.getmtime(f) < cutoff:
+                    os.unlink(f)
+                    n += 1
+            except OSError:
+                pass
+    return n
+
+
 def build_flavour(name, log=sys.stderr):
     """Returns the path of a static archive holding all library objects of this flavour."""
     fl = FLAVOURS[name]
@@ -188,7 +211,9 @@ def build_flavour(name, log=sys.stderr):
         key = sha(" ".join(flags), file_digest(src), hd, src)
         obj = os.path.join(objdir, os.path.basename(src)[:-2] + "-" + key + ".o")
         objs.append(obj)
-        if not os.path.exists(obj):
+        if os.path.exists(obj):
+            _touch(obj)
+        else:
             jobs.append(([CC] + flags + inc + ["-c", src], obj))
     t0 = time.time()
     if jobs:
@@ -199,7 +224,9 @@ def build_flavour(name, log=sys.stderr):
                     raise SystemExit("BUILD-ERROR: library flavour %s failed to compile" % name)
     akey = sha(*objs)
     ar = os.path.join(BUILD, "lib", "%s-%s.a" % (name, akey))
-    if not os.path.exists(ar):
+    if os.path.exists(ar):
+        _touch(ar)
+    else:
         os.makedirs(os.path.dirname(ar), exist_ok=True)
         tmp = ar + ".tmp%d" % os.getpid()
         rc, o = sh(["ar", "rcs", tmp] + objs)
@@ -207,17 +234,6 @@ def build_flavour(name, log=sys.stderr):
             log.write(o)
             raise SystemExit("BUILD-ERROR: ar failed")
         os.replace(tmp, ar)
-        # drop stale objects/archives of this flavour
-        keep = set(objs)
-        for f in glob.glob(os.path.join(objdir, "*.o")):
-            if f not in keep:
-                os.unlink(f)
-        for f in glob.glob(os.path.join(BUILD, "lib", name + "-*.a")):
-            if f != ar and os.path.basename(f)[len(name) + 1:].count("-") == 0:
-                try:
-                    os.unlink(f)
-                except OSError:
-                    pass
     if jobs:
         log.write("[build] flavour %s: %d objects compiled in %.1fs\n" % (name, len(jobs), time.time() - t0))
     return ar
@@ -283,6 +299,7 @@ def build_target(t, log=sys.stderr):
     os.makedirs(bindir, exist_ok=True)
     out = os.path.join(bindir, "%s-%s" % (t["name"], key))
     if os.path.exists(out):
+        _touch(out)
         return out
     t0 = time.time()
     tmp = out + ".tmp%d" % os.getpid()
@@ -292,12 +309,6 @@ def build_target(t, log=sys.stderr):
         log.write(" ".join(cmd) + "\n" + o)
         raise SystemExit("BUILD-ERROR: target %s failed to build" % t["name"])
     os.replace(tmp, out)
-    for f in glob.glob(os.path.join(bindir, t["name"] + "-*")):
-        if f != out and ".tmp" not in f:
-            try:
-                os.unlink(f)
-            except OSError:
-                pass
     log.write("[build] target %s built in %.1fs\n" % (t["name"], time.time() - t0))
     return out
 
